@@ -126,3 +126,46 @@ Definition observe_handlers (W : world) (Ly : layout) (SL : list (Z * Z)) (pis :
   | Some os => L [I 1; vlist outcome_val os]
   | None => L [I 0]
   end.
+
+(* ------------------------------------------------------------------ Simulator.__handle_task_cancellation
+   "If the task already had a placement, we remove the placement from our queue": the pending TASK_PLACEMENT event of the
+   cancelled task (the one _future_placement_events remembers) is removed from the event queue; nothing else is queued or
+   removed.  As a function of the machine-with-queue state: *)
+Definition is_placement_of (t : Z) (p : pev) : bool :=
+  event_type_eqb (pe_type p) TASK_PLACEMENT && match pe_task p with Some (u, _) => u =? t | None => false end.
+
+Definition cancel_outcome (q : simq) (t : Z) : option pev := find (is_placement_of t) (q_pending q).
+
+Definition cancel_calls (q : simq) (t : Z) : list qev :=
+  match cancel_outcome q t with Some p => [QRemove p] | None => [] end.
+
+Definition is_cancel_handle (e : qev) : option Z :=
+  match e with
+  | QSim (EHandle ty _ (Some t)) => if event_type_eqb ty TASK_CANCEL then Some t else None
+  | _ => None
+  end.
+
+(* predicted outcome of every TASK_CANCEL handler of the log: the time of the placement event removed, or nothing *)
+Fixpoint predict_cancel (W : world) (q : simq) (l : list qev) : option (list (option Z)) :=
+  match l with
+  | [] => Some []
+  | e :: rest =>
+      match sq_step W q e with
+      | None => None
+      | Some q' =>
+          match is_cancel_handle e with
+          | Some t =>
+              match predict_cancel W q' rest with
+              | Some os => Some (match cancel_outcome q' t with Some p => Some (pe_time p) | None => None end :: os)
+              | None => None
+              end
+          | None => predict_cancel W q' rest
+          end
+      end
+  end.
+
+Definition observe_cancels (W : world) (l : list qev) : val :=
+  match predict_cancel W sq_init l with
+  | Some os => L [I 1; vlist (vopt I) os]
+  | None => L [I 0]
+  end.
